@@ -11,8 +11,9 @@ def tasks(tier):
         for inp in inputs:
             for s1 in e1.SIGMA_FULL:
                 t.append({'input': inp, 'prefix': [s1], 'alphabet': e1.SIGMA_FULL, 'depth': 2})
-        for s1 in e1.SIGMA_ROW:
-            t.append({'input': 'P0', 'prefix': [s1], 'alphabet': e1.SIGMA_ROW, 'depth': 2, 'variants': True})
+        for inp in ('P0', 'P1'):
+            for s1 in e1.SIGMA_ROW:
+                t.append({'input': inp, 'prefix': [s1], 'alphabet': e1.SIGMA_ROW, 'depth': 2, 'variants': True})
     else:
         inputs = ['P0', 'P1', 'P3', 'P4']
         for inp in inputs:
